@@ -112,6 +112,11 @@ func run(args []string) {
 		for path := range overlay {
 			if strings.Contains(err.Error(), path+":") && !strings.Contains(path, "/vx/") {
 				delete(overlay, path)
+				for _, l := range strings.Split(err.Error(), "\n") {
+					if strings.Contains(l, path+":") {
+						fmt.Fprintln(os.Stderr, "symgo:   ", l)
+					}
+				}
 				dropped = append(dropped, path)
 				removed = true
 			}
